@@ -1225,29 +1225,46 @@ def model_tie(ctx, exe, defs, streams, res, texts, rng, hist):
         keep = [c for c in ids if streams[c] != "A"] + [c for c in ids if streams[c] == "A"][::4]
         ids = keep
     terms = [(cid, "run3 (%s)" % cq_adef(defs[cid], rng)) for cid in ids]
+    term_of = dict(terms)
     out = vlib.coq_eval_strings(ctx, MODEL_PREAMBLE, terms, shard_size=25, tag="c16model")
-    diffs = []
-    n = 0
-    errs = 0
+
+    def compare(cids, out):
+        diffs, n, errs = [], 0, 0
+        for cid in cids:
+            o = out.get(cid, "")
+            if o.startswith("<<COQ-ERROR") or o.count("@@") != 3:
+                errs += 1
+                diffs.append({"id": cid, "front": "coq", "real": None, "model": o})
+                continue
+            parts = o.split("@@")
+            if parts[3].startswith("wf") and parts[3] != "wfTTT":
+                # the statement of C16_front_ends_agree evaluated on this definition is false
+                diffs.append({"id": cid, "front": "theorem", "real": None,
+                              "model": "adef_ok but lowerings/spec disagree: " + o[:3000]})
+            for front, mpart in (("dsl", parts[0]), ("json", parts[1]), ("toml", parts[2])):
+                try:
+                    real = real_as_model(res[cid][front])
+                except Exception as ex:
+                    real = "unparsable:" + repr(ex)
+                n += 1
+                if norm_model_string(real) != norm_model_string(mpart):
+                    diffs.append({"id": cid, "front": front, "real": real, "model": mpart})
+        return diffs, n, errs
+
+    diffs, n, errs = compare(ids, out)
+    retried = 0
+    if diffs:
+        # other agents rebuild shared .vo files concurrently: a disagreement must survive a second evaluation
+        again = sorted({d["id"] for d in diffs})
+        retried = len(again)
+        out2 = vlib.coq_eval_strings(ctx, MODEL_PREAMBLE, [(c, term_of[c]) for c in again], shard_size=10, tag="c16retry")
+        diffs, _, errs = compare(again, out2)
+        out.update(out2)
     for cid in ids:
         o = out.get(cid, "")
-        if o.startswith("<<COQ-ERROR"):
-            errs += 1
-            diffs.append({"id": cid, "front": "coq", "real": None, "model": o})
-            continue
-        parts = o.split("@@")
-        hist["model_" + parts[3]] += 1
-        if parts[3].startswith("wf") and parts[3] != "wfTTT":
-            # the statement of C16_front_ends_agree evaluated on this definition is false
-            diffs.append({"id": cid, "front": "theorem", "real": None, "model": "adef_ok but lowerings/spec disagree: " + o[:3000]})
-        for front, mpart in (("dsl", parts[0]), ("json", parts[1]), ("toml", parts[2])):
-            try:
-                real = real_as_model(res[cid][front])
-            except Exception as ex:
-                real = "unparsable:" + repr(ex)
-            n += 1
-            if norm_model_string(real) != norm_model_string(mpart):
-                hist["model_diff_" + front] += 1
-                diffs.append({"id": cid, "front": front, "real": real, "model": mpart})
+        if o.count("@@") == 3:
+            hist["model_" + o.split("@@")[3]] += 1
+    for d in diffs:
+        hist["model_diff_" + d["front"]] += 1
     first = [{"id": d["id"], "front": d["front"], "real": (d["real"] or "")[:600], "model": (d["model"] or "")[:600]} for d in diffs[:3]]
-    return {"definitions": len(ids), "comparisons": n, "coq_errors": errs, "diffs": diffs, "first_diffs": first}
+    return {"definitions": len(ids), "comparisons": n, "coq_errors": errs, "retried": retried, "diffs": diffs, "first_diffs": first}
